@@ -26,6 +26,25 @@ sys.path.insert(0, os.path.join(V.VERIF, "translator"))
 import c17_globals as T  # noqa
 
 TSAN_ENV = {"TSAN_OPTIONS": "halt_on_error=0 exitcode=66 second_deadlock_stack=1 history_size=4"}
+
+
+def utf8_locale():
+    """a UTF-8 locale for the harness processes: under it the local-code-page form of CJK/Cyrillic text is 2-4 bytes per
+    UTF-16 unit, which is what drives ICULCPTranscoder::transcode into its overflow-retry path"""
+    try:
+        names = subprocess.run(["locale", "-a"], stdout=subprocess.PIPE, stderr=subprocess.DEVNULL, timeout=20).stdout.decode().split()
+    except Exception:  # noqa
+        names = []
+    for want in ("C.utf8", "C.UTF-8", "en_US.utf8", "en_US.UTF-8"):
+        if want in names:
+            return want
+    for n in names:
+        if n.lower().endswith(("utf8", "utf-8")):
+            return n
+    return None
+
+
+LOCALE = utf8_locale()
 TIMEOUT = 150
 
 # known findings: how a ThreadSanitizer report is attributed (precise predicates, see known-findings.d/C17.json)
@@ -57,8 +76,10 @@ def run_one(xh, mode, cfg):
     seed, n, mask, pert, iters = cfg
     env = dict(os.environ)
     env.update(TSAN_ENV)
-    if os.environ.get("VERIF_C17_PRELOAD"):      # testing aid: run against a separately (re)linked TSan library
-        env["LD_PRELOAD"] = os.environ["VERIF_C17_PRELOAD"]
+    if LOCALE:
+        env["LC_ALL"] = LOCALE
+    if os.environ.get("VERIF_C17_LIBDIR"):       # testing aid: run against a separately (re)linked TSan library
+        env["LD_LIBRARY_PATH"] = os.environ["VERIF_C17_LIBDIR"]   # (the harness carries a RUNPATH, which this precedes)
     t0 = time.time()
     try:
         p = subprocess.run([xh, mode, str(seed), str(n), str(mask), str(pert), str(iters)], stdout=subprocess.PIPE,
@@ -140,14 +161,43 @@ def gen_configs(ctx):
     rng = ctx.rng
     quick = ctx.tier == "quick"
     nruns = 30 if quick else 1500
-    #  bit0 private parsers, bit1 shared locked pool, bit2 DOM, bit3 regex, bit4 transcode, bit5 create/destroy
-    masks = [0x3D, 0x3F, 0x02, 0x01, 0x04, 0x08, 0x10, 0x20, 0x09, 0x14, 0x21, 0x03, 0x3F, 0x3D]
+    #  bit0 private parsers, bit1 shared locked pool, bit2 DOM, bit3 regex, bit4 transcode, bit5 create/destroy,
+    #  bit7 shared locked pool + per-thread schemas via schemaLocation + URI growth, bit8 heavy local-code-page transcoding
+    masks = [0x1BD, 0x1BF, 0x82, 0x01, 0x04, 0x08, 0x110, 0x20, 0x09, 0x14, 0x21, 0x03, 0x80, 0x100, 0x1BF, 0x3D]
     cfgs = []
     for k in range(nruns):
         n = (2, 4, 8, 16)[k % 4]
-        mask = masks[(k // 4) % len(masks)] if k < 4 * len(masks) else rng.choice(masks + [rng.randrange(1, 64)])
+        mask = masks[(k // 4) % len(masks)] if k < 4 * len(masks) else rng.choice(masks + [rng.randrange(1, 64), 0x180 | rng.randrange(0, 64)])
         cfgs.append((rng.randrange(1, 10 ** 9), n, mask, rng.randrange(0, 3), rng.randrange(2, 6)))
     return cfgs
+
+
+def targeted_configs(ctx, rounds=1):
+    """workloads aimed at lock scopes that ordinary documents hardly reach: the synchronised URI pool of a locked grammar
+    pool under growth (getId/exists/addOrFind with parse-time schemas), the overflow-retry path of the local-code-page
+    transcoder, the owner-less doctype document.  Always part of the run; the refuter runs more of them."""
+    rng = ctx.rng
+    out = []
+    for _ in range(rounds):
+        out += [(rng.randrange(1, 10 ** 9), 16, 0x80, 1, 3), (rng.randrange(1, 10 ** 9), 8, 0x80, 2, 4),
+                (rng.randrange(1, 10 ** 9), 16, 0x100, 1, 3), (rng.randrange(1, 10 ** 9), 8, 0x100, 0, 4)]
+        if rounds > 1:
+            out += [(rng.randrange(1, 10 ** 9), 16, 0x04, 1, 6), (rng.randrange(1, 10 ** 9), 16, 0x182, 2, 6),
+                    (rng.randrange(1, 10 ** 9), 16, 0x3F, 1, 6), (rng.randrange(1, 10 ** 9), 4, 0x180, 1, 8)]
+    return out
+
+
+def looks_bad(job, out):
+    """cheap pre-scan used by the refuter: does this run already contain something the decision below will report?"""
+    fid, cfg = job
+    seq, conc = out
+    if conc["timeout"] or "DONE" not in conc["out"] or seq["rc"] != 0:
+        return True
+    if any(attribute(rp, cfg) is None for rp in parse_reports(conc["err"])):
+        return True
+    a = [ln for ln in seq["out"].splitlines() if ln.startswith("T ")]
+    b = [ln for ln in conc["out"].splitlines() if ln.startswith("T ")]
+    return a != b
 
 
 def witness_configs(ctx):
@@ -208,7 +258,7 @@ def run(ctx):
                           and any(s["sym"] == e["id"] and s["kind"] in ("write", "dwrite") and not s["held"] and not s["init"]
                                   for s in inv["sites"])})
     # ---- exploration -----------------------------------------------------------------------------------------
-    xh = ctx.harness("C17", variant="lib-tsan", extra="-fsanitize=thread")
+    xh = ctx.harness("C17", variant="lib-tsan", extra="-fsanitize=thread -rdynamic -ldl")
     if ctx.replay:
         r = json.load(open(ctx.replay))
         req = r.get("request")
@@ -221,7 +271,7 @@ def run(ctx):
         wit = []
     else:
         wit = witness_configs(ctx)
-        todo = [(None, c) for c in gen_configs(ctx)]
+        todo = [(None, c) for c in targeted_configs(ctx) + gen_configs(ctx)]
     def work(job):
         fid, cfg = job
         seq = run_one(xh, "seq", cfg)
@@ -233,10 +283,12 @@ def run(ctx):
         return seq, conc
     # time budget: the quick tier must stay below 3 minutes even on a loaded machine, so the generated configurations
     # are a seed-determined sequence of which a prefix is run (at least 8); the number run is in the evidence
-    deadline = ctx.t0 + (120 if ctx.tier == "quick" else 1500)
+    deadline = ctx.t0 + (95 if ctx.tier == "quick" else 1500)
     jobs, outs = [], []
     with concurrent.futures.ThreadPoolExecutor(max_workers=4) as ex:
         for fid, cfgs in wit:                     # witnesses: stop a group as soon as its finding reproduced
+            if not ctx.find_known(fid):           # fixed findings: two configurations remain as a regression guard
+                cfgs = cfgs[:2]
             for c in cfgs:
                 o = work((fid, c))
                 jobs.append((fid, c))
@@ -249,6 +301,23 @@ def run(ctx):
             outs += list(ex.map(work, chunk))
             jobs += chunk
             k += len(chunk)
+        # refuter: an obligation failed (an access left its lock scope, a new mutable static, ...) and nothing above
+        # exhibits it yet: run the targeted workloads with more processes / iterations before giving up
+        refuter_runs = 0
+        if proof_broken and not ctx.replay and not any(looks_bad(j, o) for j, o in zip(jobs, outs)):
+            rdeadline = max(time.time() + 45, ctx.t0 + (165 if ctx.tier == "quick" else 1700))
+            extra = [(None, c) for c in targeted_configs(ctx, rounds=6 if ctx.tier == "quick" else 40)]
+            k2 = 0
+            while k2 < len(extra) and time.time() < rdeadline:
+                chunk = extra[k2:k2 + 4]
+                o = list(ex.map(work, chunk))
+                outs += o
+                jobs += chunk
+                k2 += len(chunk)
+                refuter_runs += len(chunk)
+                if any(looks_bad(j, x) for j, x in zip(chunk, o)):
+                    break
+        ctx.coverage["refuter_configurations_run"] = refuter_runs
     ctx.coverage["configurations_generated"] = len(todo)
     ctx.coverage["configurations_run"] = len(jobs)
     seen_findings = {}
@@ -298,10 +367,14 @@ def run(ctx):
             viol += 1
             if viol <= 6:
                 glob = rp["global"]
-                ctx.violation("tsan-inventory-contradicted" if glob else "tsan-report",
+                sentinel = bool(glob) and glob.startswith("sentinel::")
+                libglob = bool(glob) and not sentinel
+                ctx.violation("tsan-inventory-contradicted" if libglob else "tsan-report",
                               {"request": req, "kind": rp["kind"], "global": glob,
                                "top_frames": [top_lib_frame(st) for st in rp["stacks"][:3]],
-                               "what": ("ThreadSanitizer report on a global the inventory classifies as safe" if glob else
+                               "what": ("ThreadSanitizer report on a global the inventory classifies as safe" if libglob else
+                                        "two threads were inside one ICU UConverter at the same time (converter sentinel of "
+                                        "harness/C17.cpp): the library used the converter outside its mutex" if sentinel else
                                         "ThreadSanitizer report not attributed to a known finding"),
                                "report": rp["text"]})
         a = [ln for ln in seq["out"].splitlines() if ln.startswith("T ")]
@@ -365,7 +438,10 @@ def run(ctx):
         "unattributed_distinct_reports": len(distinct_reports), "threads": [2, 4, 8, 16],
         "schedule_perturbation": "wrapper XMLMutexMgr installed through the public XMLPlatformUtils::fgMutexMgr: seeded "
                                  "sched_yield / usleep around every lock and unlock (levels 0,1,2)",
-        "suppressions": "none"}
+        "suppressions": "none", "locale": LOCALE,
+        "icu_sentinel": "ICU is not TSan-instrumented: the harness interposes ucnv_fromUChars/toUChars/fromUnicode/toUnicode/"
+                        "setFromUCallBack (executable linked -rdynamic) and performs an instrumented write to a per-converter "
+                        "shadow word before forwarding, so unsynchronised use of one UConverter is reported by TSan"}
     ctx.coverage["rule"] = ("one evaluation = one configuration (seed, N threads, workload mask, perturbation level, "
                             "iterations) run twice in fresh processes (sequential reference + concurrent under TSan); "
                             "non-trivial = at least 4 threads or at least one TSan report; distinct by configuration and "
